@@ -217,7 +217,7 @@ def main(tier, replay):
     base = chk.seed * 1000000 + 1010
     q = tier == 'quick'
     # (1) API fuzz
-    n = 400 if q else 20000
+    n = 1000 if q else 20000
     steps = 0
     for out in common.pmap(fuzz_work, [(dbin, list(range(base + i, base + min(i + 25, n)))) for i in range(0, n, 25)]):
         for rec in out:
@@ -228,7 +228,7 @@ def main(tier, replay):
             for key, det in rec['bad']: chk.report(key, det, '%s %s' % (rec['id'], key))
     chk.add('api_scripts', n); chk.add('api_step_results_checked', steps)
     # (2) cross-thread cancel / receive
-    n2 = 60 if q else 3000
+    n2 = 120 if q else 3000
     jobs = [(('tsan', 'asan')[i % 2], base + i, ('cancel', 'receive')[(i // 2) % 2], ('lua', 'promela')[(i // 4) % 2], ('large', 'fast')[(i // 8) % 2], outdir, bool((i // 3) % 2)) for i in range(n2)]
     sigs = set()
     for rec in common.pmap(cancel_work, jobs, workers=min(10, common.NPROC)):
